@@ -3,8 +3,9 @@
  * the first index at which the operands differ.
  *
  * The expected message is assembled below from the documented message layout and a reference escaping
- * function; operand bytes are symbolic over the whole byte range, NULL-ness symbolic where the class takes
- * pointers.  Reads outside the operands are caught by CBMC's pointer checks on the exactly-sized operand
+ * function; operand bytes are symbolic over the whole byte range; where the class takes pointers every
+ * NULL / non-NULL combination is its own obligation (a symbolic pointer would make every string loop
+ * unbounded for the symbolic executor).  Reads outside the operands are caught by CBMC's pointer checks on the exactly-sized operand
  * arrays and by the heap red zones of the engine (every SimpleString buffer is checked against its
  * requested size).  Termination: unwinding assertions.
  * vsnprintf: %s %c %x %X rendered faithfully; decimal conversions are rendered as one '#' per digit (the
